@@ -1020,7 +1020,7 @@ func Run(c *core.Ctx) error {
 	tf := c.Trace("c18_fs", "Trace_FsWrite")
 
 	if c.WantGen("edit") {
-		n := c.Pick(250, 1500)
+		n := c.Pick(250, 1300)
 		for cas := 0; cas < n; cas++ {
 			if c.Want("edit", cas) {
 				histEdit(c, t, "edit", cas)
@@ -1035,7 +1035,7 @@ func Run(c *core.Ctx) error {
 		if hasKF(c, kfEscaping) {
 			md.exoticKeys, md.plainVals = false, true
 		}
-		n := c.Pick(200, 1200)
+		n := c.Pick(200, 1000)
 		for cas := 0; cas < n; cas++ {
 			if c.Want("wb", cas) {
 				histWb(c, t, "wb", cas, md)
